@@ -60,6 +60,7 @@ type Profile struct {
 	W        map[string]int // weights by action kind
 	StepPct  int            // chance to process a request right after sending it
 	SnapPct  int            // chance of a snapshot after an op (when quiescent)
+	Groups   int            // > 1: connections belong to a group (id mod Groups) and mostly join sessions of their own group
 }
 
 type Gen struct {
@@ -500,13 +501,39 @@ func (g *Gen) one() {
 		r := &Req{Kind: 3, Rid: g.nextRid(), Ots: g.nextOts()}
 		live := g.liveSids()
 		x := g.r.intn(100)
+		newPct := 30
+		if g.p.Groups > 1 {
+			newPct = 12 // fewer, larger sessions: the groups of the purge experiment should have several members
+		}
 		switch {
-		case x < 30 && len(live) < g.p.MaxSess:
+		case x < newPct && len(live) < g.p.MaxSess:
 			r.SidKind = 0
 			g.count("join:new")
 		case x < 80 && len(live) > 0:
-			r.SidKind, r.A = 1, g.r.pick(live)
-			g.count("join:existing")
+			pickFrom := live
+			if g.p.Groups > 1 && g.r.chance(96) {
+				// sessions whose members are all of this connection's group
+				var own []uint32
+				for _, sid := range live {
+					ok := true
+					for m := range g.sess[sid].members {
+						if m%g.p.Groups != c.id%g.p.Groups {
+							ok = false
+						}
+					}
+					if ok {
+						own = append(own, sid)
+					}
+				}
+				pickFrom = own
+			}
+			if len(pickFrom) == 0 {
+				r.SidKind = 0
+				g.count("join:new")
+			} else {
+				r.SidKind, r.A = 1, g.r.pick(pickFrom)
+				g.count("join:existing")
+			}
 		case x < 86 && len(g.dead) > 0:
 			r.SidKind, r.A = 1, g.r.pick(g.dead)
 			g.count("join:dead")
